@@ -153,7 +153,13 @@ def shapes():
     def __len__(self):
       return 0
 
-  return {'fn': fn, 'wrapped_fn': wrapped, 'builtin': max, 'init': WithInit, 'new': WithNew, 'both': WithBoth, 'neither': Neither,
+  class WithNewClsParam:
+    """doc new_cls"""
+
+    def __init__(self, a, b=2, new_cls=None):     # `new_cls` is also how Gin's metaclass shim calls its first parameter
+      self.a, self.b, self.new_cls = a, b, new_cls
+
+  return {'newcls_param': WithNewClsParam, 'fn': fn, 'wrapped_fn': wrapped, 'builtin': max, 'init': WithInit, 'new': WithNew, 'both': WithBoth, 'neither': Neither,
           'meta': WithMeta, 'slots': Slotted, 'namedtuple': NT, 'abc': Concrete, 'init_alias': InitAlias, 'new_alias': NewAlias,
           'callable_obj': Call(), 'falsy_callable': FalsyCall(), 'bound_method': Call().meth,
           # every attribute access makes a new bound-method object, equal to but not identical with the registered one
@@ -191,8 +197,33 @@ def pickle_classes():
   return mod
 
 
+def run_rename_case(case):
+  """A class whose method was registered on its own is registered; afterwards a *function* is registered under the name
+  the method used to have: each receives its own bindings, through every way of reaching it."""
+  gin = core.fresh_gin()
+  g = {'gin': gin, '__name__': 'rn'}
+  exec('class Cls:\n  @gin.register\n  def run(self, x=0):\n    return ("method", x)\n'  # pylint: disable=exec-used
+       'def run(x=0):\n  return ("fn", x)\n', g)
+  facts = {}
+  try:
+    if case['api'] == 'external':
+      gin.external_configurable(g['Cls'])
+      c = gin.external_configurable(g['run'])
+    else:
+      gin.register(g['Cls'])
+      gin.register(g['run'])
+      c = gin.get_configurable(g['run'])
+    gin.bind_parameter('rn.Cls.run.x', 5)
+    gin.bind_parameter('rn.run.x', 7)
+    got = [c(), gin.get_configurable(g['run'])(), gin.get_configurable(g['Cls'])().run(), gin.get_configurable('rn.run')()]
+    facts['got'] = [list(x) for x in got]
+  except Exception as e:  # pylint: disable=broad-except
+    facts['error'] = f'{type(e).__name__}: {e}'[:200]
+  return facts
+
+
 def shape_cases():
-  out = []
+  out = [{'dom': 'gin', 'kind': 'shape', 'shape': 'rename', 'api': api, 'scoped': False, 'ops': []} for api in ('register', 'external')]
   for shape in list(shapes()) + ['pickle_init', 'pickle_new', 'pickle_nt', 'with_method', 'borrowed_method', 'equal_objects', 'rejected_class']:
     for api in ('configurable', 'register', 'external'):
       for scoped in (False, True):
@@ -268,6 +299,8 @@ def run_shape(case):
   shape, api, scoped = case['shape'], case['api'], case['scoped']
   table = shapes()
   facts = {}
+  if shape == 'rename':
+    return run_rename_case(case)
   if shape == 'equal_objects':
     return equal_objects(gin, api)
   if shape == 'rejected_class':
@@ -365,6 +398,14 @@ def run_shape(case):
       facts['caller_wins'] = (c2 == ('fn', 1, 5)) if shape in FN_LIKE else (getattr(c2, 'b', None) == 5)
     except Exception as e:  # pylint: disable=broad-except
       facts['caller_wins'] = f'raised {type(e).__name__}: {e}'[:120]
+  if shape == 'newcls_param':
+    try:
+      gin.bind_parameter(f'c13.{name}.new_cls', 'bound')
+      c3, c4 = cfgd(1), cfgd(1, new_cls='passed')
+      facts['caller_wins'] = ((c3.new_cls, c4.new_cls) == ('bound', 'passed')) or \
+          f'new_cls bound / passed by the caller arrived as {c3.new_cls!r} / {c4.new_cls!r}'
+    except Exception as e:  # pylint: disable=broad-except
+      facts['caller_wins'] = f'a constructor parameter called new_cls: raised {type(e).__name__}: {e}'[:160]
   if shape in ('fn', 'init') and scoped:
     # the name registered again inside interactive mode: a scoped lookup made before must not stand for it afterwards
     try:
@@ -529,6 +570,12 @@ def oracle(case, impl):
   tag = f'{case["shape"]}/{case["api"]}/{"scoped" if case["scoped"] else "unscoped"}'
   if 'error' in f:
     return f'{tag}: {f["error"]}'
+  if case['shape'] == 'rename':
+    want = [['fn', 7], ['fn', 7], ['method', 5], ['fn', 7]]
+    if f.get('got') != want:
+      return (f'{tag}: a function registered under the former name of a method (wrapper, by object, the method through its '
+              f'class, by name) delivered {f.get("got")}, their own bindings imply {want}')
+    return None
   for k in ('register_returns_original', 'direct_untouched', 'injected', 'isinstance', 'issubclass', 'name_doc_module',
             'class_dict_unchanged', 'pickles', 'meta_ran', 'name_doc_sig', 'equal_but_distinct_rejected',
             'method_via_function_object', 'duplicate_rejected', 'registry_unchanged',
